@@ -61,6 +61,7 @@ fn run(a: &[String]) {
     let out_path = a[6].clone();
     let strategy = match phase.as_str() {
         "hostile" => gen::hostile_case(),
+        "stressmut" => c01::stress_mut_case(),
         _ => {
             let cfg = gen::StreamCfg::small(gen::Mix { fixed: 1, v9: 3, ipfix: 3 });
             gen::conformant_case(cfg, gen::BuildOpts::WIDE)
